@@ -26,9 +26,6 @@ type stateDecode struct {
 
 	decodeType bool
 	decoder    *decoder
-
-	// bytes available to the value whose type is being unfolded
-	limit int
 }
 
 // Decode
@@ -55,6 +52,9 @@ func Decode(packet []byte, options Options) (_ any, _ []byte, ret error) {
 		return nil, packet, nil
 	}
 	state.decoder = dec
+	if fits(dec.Type, 1, len(packet)) == false {
+		return nil, nil, fmt.Errorf("malformed EDF: array exceeds the size of the data")
+	}
 	v := reflect.Indirect(reflect.New(dec.Type))
 
 	value, packet, err := dec.Decode(&v, packet, state)
@@ -68,11 +68,26 @@ func Decode(packet []byte, options Options) (_ any, _ []byte, ret error) {
 	return value.Interface(), packet, nil
 }
 
+// fits reports whether count values of type t can come with avail bytes of data. Every element of
+// an array takes at least one byte (types without content aside), so an array type unfolded from the
+// wire must not be allocated when it has more elements than there is data. (This is asked when a value
+// is about to be made, not when the type is unfolded: a nil or empty slice or map of big arrays is fine.)
+func fits(t reflect.Type, count uint64, avail int) bool {
+	if t.Size() == 0 {
+		return true
+	}
+	leaves := count
+	for t.Kind() == reflect.Array && leaves <= uint64(avail) {
+		leaves *= uint64(t.Len())
+		t = t.Elem()
+	}
+	return leaves <= uint64(avail)
+}
+
 func getDecoder(packet []byte, state *stateDecode) (*decoder, []byte, error) {
 	if len(packet) == 0 {
 		return nil, nil, errDecodeEOD
 	}
-	state.limit = len(packet)
 
 	id := packet[0]
 	packet = packet[1:]
@@ -209,7 +224,7 @@ func decodeType(fold []byte, state *stateDecode) (*decoder, []byte, error) {
 				return value, packet, nil
 			}
 
-			if n > len(packet) {
+			if n > len(packet) || fits(decKey.Type, uint64(n), len(packet)) == false || fits(decValue.Type, uint64(n), len(packet)) == false {
 				return nil, nil, fmt.Errorf("incorrect data length")
 			}
 
@@ -304,7 +319,7 @@ func decodeType(fold []byte, state *stateDecode) (*decoder, []byte, error) {
 
 			// every element takes at least one byte - unless its type has no content at all (struct{}, [0]T)
 			empty := decItem.Type.Size() == 0
-			if n > len(packet) && empty == false {
+			if fits(decItem.Type, uint64(n), len(packet)) == false {
 				return nil, nil, fmt.Errorf("incorrect data length")
 			}
 
@@ -361,19 +376,6 @@ func decodeType(fold []byte, state *stateDecode) (*decoder, []byte, error) {
 		}
 		if len(f) > 0 {
 			return nil, nil, fmt.Errorf("extra data in folded type (array): %#v", f)
-		}
-
-		// every element takes at least one byte: an array cannot be longer than
-		// the data it comes with (do not allocate what a length field claims)
-		if state.limit > 0 && decItem.Type.Size() > 0 {
-			// (nested arrays multiply: count the leaves)
-			leaves := uint64(n)
-			for t := decItem.Type; t.Kind() == reflect.Array && leaves <= uint64(state.limit); t = t.Elem() {
-				leaves *= uint64(t.Len())
-			}
-			if leaves > uint64(state.limit) {
-				return nil, nil, fmt.Errorf("array of %d elements exceeds the size of the data", leaves)
-			}
 		}
 
 		vtype := reflect.ArrayOf(n, decItem.Type)
@@ -1155,6 +1157,10 @@ func decodeAny(value *reflect.Value, packet []byte, state *stateDecode) (*reflec
 
 	if dec == nil {
 		return value, p, nil
+	}
+
+	if fits(dec.Type, 1, len(p)) == false {
+		return nil, nil, fmt.Errorf("array exceeds the size of the data")
 	}
 
 	if value == nil {
